@@ -546,7 +546,17 @@ func (h h6) Gen(prop, tier string, r *simrt.Rng) (any, simrt.Config) {
 			}
 		case 1: // odd values
 			c.Input.WellFormed = false
-			switch r.Intn(6) {
+			switch r.Intn(7) {
+			case 6:
+				// the default section asks for no users, a users stage inherits it
+				v := simrt.Pick(r, "0", "-1")
+				doc.def.fields["concurrency"] = v
+				i := r.Intn(len(doc.stages))
+				doc.stages[i].fields["mode"] = "users"
+				delete(doc.stages[i].fields, "concurrency")
+				doc.stageStart = nil
+				c.Input.NoWorkers = true
+				c.Input.Mutation = "default.concurrency=" + v + " inherited by a users stage"
 			case 0:
 				v := simrt.Pick(r, "0", "-1", "-7")
 				doc.limits["concurrency"] = v
